@@ -65,7 +65,7 @@ func c17FreeWorkload(spec RunSpec) c17Model {
 	iters := spec.P("iters", 30)
 	m := c17Model{lines: map[string]int{}}
 	var b strings.Builder
-	b.WriteString("let g = 0;\nlet h = \"x\";\nlet k = 1.5;\n")
+	b.WriteString("let g = 0;\nlet h = \"x\";\nlet k = 1.5;\nlet ro = 7;\nlet ro_s = \"never reassigned\";\n")
 	fmt.Fprintf(&b, `fn gw(id: int, n: int) {
     let acc = 0;
     for i in 0..n {
@@ -73,7 +73,8 @@ func c17FreeWorkload(spec RunSpec) c17Model {
         h = "w";
         if g < 0 { println("negative"); }
         k = k + 0.5;
-        acc = acc + g %% 3;
+        acc = acc + g %% 3 + ro;
+        if ro_s == "x" { acc = acc + 1; }
     }
     println("gw", id, "done");
 }
